@@ -827,9 +827,11 @@ class C13(fw.Prop):
             "session with >= 2 accepted calls")
     trusted = ["the interpreter of case descriptions (harness/props/c13.py) and its knowledge of which kind of "
                "port each constructed source node has and which guarded fields a container leaves unset",
-               "hierarchy read back as hugr[n].parent; types interned by Python ==",
-               "exception classes are compared by name"]
-    assumptions = ["hierarchies are parent-first (no node deletion before the refused call)"]
+               "hierarchy read back as hugr[n].parent, nodes named canonically (rank by depth, index); types "
+               "interned by Python == together with their spelling",
+               "exception classes are compared by name (first class of the MRO the property knows)",
+               "which refusals hugr-py documents a class for (C13Run.documented)"]
+    assumptions = ["the wire's target is the operation of the target builder, recorded or not by a refusal"]
 
     def __init__(self):
         self.T = TypeIds()
